@@ -67,6 +67,8 @@ var pools = []Pool{
 	{Text: map[int]string{1: "nb\u00a0sp", 2: "12"}, Color: map[int]string{1: "#abcdef", 2: "#123456"}},
 	{Text: map[int]string{1: "\U0001F600 non-BMP \U00010348", 2: "ünï cödé → 日本語"}, Color: map[int]string{1: "yellow", 2: "#fff"}},
 	{Text: map[int]string{1: "quote \" and ' and > gt", 2: "{\\an8} brace"}, Color: map[int]string{1: "white", 2: "#0a0b0c"}},
+	// texts that literally contain entity-looking character sequences: they must survive one level of escaping
+	{Text: map[int]string{1: "AT&amp;T literally", 2: "&lt;b&gt; is not a tag&nbsp;here"}, Color: map[int]string{1: "#010203", 2: "black"}},
 }
 
 func PoolFor(n int) Pool { return pools[((n%len(pools))+len(pools))%len(pools)] }
